@@ -13,20 +13,21 @@ deriving DecidableEq
 structure Abs where
   ph : Ph
   empty : List Nat        -- slots known to hold no pointer
+  mine : Nat → Bool := fun _ => true     -- the slots of the thread (its variables and scratch slots)
 
 def Abs.drop (A : Abs) (t : Nat) : List Nat := A.empty.filter (fun x => x != t)
 
 def absStep (n : Nat) (A : Abs) : Act → Option Abs
-  | .inc t src => if A.ph = .idle ∧ t < n ∧ src < n ∧ t ∈ A.empty then some { A with empty := A.drop t } else none
-  | .dec t => if A.ph = .idle ∧ t < n then some { ph := .mayFree, empty := t :: A.empty } else none
+  | .inc t src => if (A.mine t = true ∧ A.mine src = true) ∧ A.ph = .idle ∧ t < n ∧ src < n ∧ t ∈ A.empty then some { A with empty := A.drop t } else none
+  | .dec t => if A.mine t = true ∧ A.ph = .idle ∧ t < n then some { A with ph := .mayFree, empty := t :: A.empty } else none
   | .free => if A.ph = .mayWrite then none else some { A with ph := .idle }
-  | .alloc t _ _ _ => if A.ph = .idle ∧ t < n ∧ t ∈ A.empty then some { A with empty := A.drop t } else none
-  | .readRef t _ => if A.ph = .idle ∧ t < n then some { A with ph := .mayWrite } else none
+  | .alloc t _ _ _ => if A.mine t = true ∧ A.ph = .idle ∧ t < n ∧ t ∈ A.empty then some { A with empty := A.drop t } else none
+  | .readRef t _ => if A.mine t = true ∧ A.ph = .idle ∧ t < n then some { A with ph := .mayWrite } else none
   | .write _ => if A.ph = .mayFree then none else some { A with ph := .idle }
-  | .move d t => if A.ph = .idle ∧ d < n ∧ t < n ∧ d ≠ t ∧ d ∈ A.empty then some { A with empty := t :: A.drop d } else none
-  | .swap a b => if A.ph = .idle ∧ a < n ∧ b < n then some { A with empty := (A.drop a).filter (fun x => x != b) } else none
-  | .setInl d _ _ => if A.ph = .idle ∧ d < n ∧ d ∈ A.empty then some A else none
-  | .clr t => if A.ph = .idle ∧ t < n ∧ t ∈ A.empty then some A else none
+  | .move d t => if (A.mine d = true ∧ A.mine t = true) ∧ A.ph = .idle ∧ d < n ∧ t < n ∧ d ≠ t ∧ d ∈ A.empty then some { A with empty := t :: A.drop d } else none
+  | .swap a b => if (A.mine a = true ∧ A.mine b = true) ∧ A.ph = .idle ∧ a < n ∧ b < n then some { A with empty := (A.drop a).filter (fun x => x != b) } else none
+  | .setInl d _ _ => if A.mine d = true ∧ A.ph = .idle ∧ d < n ∧ d ∈ A.empty then some A else none
+  | .clr t => if A.mine t = true ∧ A.ph = .idle ∧ t < n ∧ t ∈ A.empty then some A else none
   | _ => none
 
 def absRun (n : Nat) (A : Abs) : List Act → Option Abs
@@ -42,7 +43,8 @@ def phOk (p : Pc) : Ph → Prop
 
 structure Conc (s : St) (tid : Nat) (A : Abs) : Prop where
   inv : Inv s
-  own : ∀ x, s.owner x = tid
+  own : ∀ x, A.mine x = true → s.owner x = tid
+  low : ∀ x, A.mine x = true → x < embBase      -- top-level slots only (no handle embedded in a payload)
   ph : phOk (s.pc tid) A.ph
   emp : ∀ x, x ∈ A.empty → (s.slots x).isBlk = false
 
@@ -59,13 +61,13 @@ theorem absStep_sound {s : St} {tid : Nat} {A A' : Abs} {a : Act} (hc : Conc s t
     split at ha
     case isFalse => cases ha
     case isTrue h =>
-      obtain ⟨hph, ht, hsrc, hte⟩ := h
+      obtain ⟨hm, hph, ht, hsrc, hte⟩ := h
       cases ha
       have hp : s.pc tid = .idle := by have := hc.ph; rw [hph] at this; exact this
       have hs : astep s tid (.inc t src) = some (doInc s t src) := by
-        simp only [astep, ht, hsrc, hc.own, hp, hc.emp t hte, and_self, if_true]
-      refine ⟨_, hs, ⟨inv_astep hinv hs, ?_, ?_, ?_⟩, doInc_n _ _ _⟩
-      · intro x; simp only [doInc]; (repeat' split) <;> exact hc.own x
+        simp only [astep, ht, hsrc, (hc.own t hm.1), (hc.own src hm.2), hp, hc.emp t hte, and_self, if_true]
+      refine ⟨_, hs, ⟨inv_astep hinv hs, ?_, hc.low, ?_, ?_⟩, doInc_n _ _ _⟩
+      · intro x hx; simp only [doInc]; (repeat' split) <;> exact hc.own x hx
       · simp only [doInc_pc, hph]; exact hp
       · intro x hx
         obtain ⟨hx1, hx2⟩ := mem_drop hx
@@ -77,7 +79,7 @@ theorem absStep_sound {s : St} {tid : Nat} {A A' : Abs} {a : Act} (hc : Conc s t
     split at ha
     case isFalse => cases ha
     case isTrue h =>
-      obtain ⟨hph, ht⟩ := h
+      obtain ⟨hm, hph, ht⟩ := h
       cases ha
       have hp : s.pc tid = .idle := by have := hc.ph; rw [hph] at this; exact this
       cases hsl : s.slots t with
@@ -86,13 +88,13 @@ theorem absStep_sound {s : St} {tid : Nat} {A A' : Abs} {a : Act} (hc : Conc s t
         have hr0 : ¬ blk.ref = 0 := by omega
         have hs : ∃ s', astep s tid (.dec t) = some s' ∧ s'.slots = upd s.slots t .none ∧ s'.owner = s.owner ∧ s'.n = s.n ∧
             s'.pc tid = (if blk.ref = 1 then .freeing b else .idle) := by
-          simp only [astep, ht, hc.own, hp, and_self, if_true, hsl, hblk, hr0, if_false]
+          simp only [astep, ht, (hc.own t hm), hp, and_self, if_true, hsl, hblk, hr0, if_false]
           refine ⟨_, rfl, rfl, rfl, rfl, ?_⟩
           by_cases h1 : blk.ref = 1
           · simp only [h1, if_true, upd_same]
           · simp only [h1, if_false]; exact hp
         obtain ⟨s', hs, hsl', hown', hn', hpc'⟩ := hs
-        refine ⟨_, hs, ⟨inv_astep hinv hs, by rw [hown']; exact hc.own, ?_, ?_⟩, hn'⟩
+        refine ⟨_, hs, ⟨inv_astep hinv hs, by rw [hown']; exact hc.own, hc.low, ?_, ?_⟩, hn'⟩
         · simp only [phOk, hpc']
           by_cases h1 : blk.ref = 1
           · right; exact ⟨b, by simp only [h1, if_true]⟩
@@ -108,10 +110,10 @@ theorem absStep_sound {s : St} {tid : Nat} {A A' : Abs} {a : Act} (hc : Conc s t
       | none =>
         have hs : ∃ s', astep s tid (.dec t) = some s' ∧ s'.slots = upd s.slots t .none ∧ s'.owner = s.owner ∧ s'.n = s.n ∧
             s'.pc = s.pc := by
-          simp only [astep, ht, hc.own, hp, and_self, if_true, hsl]
+          simp only [astep, ht, (hc.own t hm), hp, and_self, if_true, hsl]
           exact ⟨_, rfl, rfl, rfl, rfl, rfl⟩
         obtain ⟨s', hs, h1, h2, h3, h4⟩ := hs
-        refine ⟨_, hs, ⟨inv_astep hinv hs, by rw [h2]; exact hc.own, Or.inl (by rw [h4]; exact hp), ?_⟩, h3⟩
+        refine ⟨_, hs, ⟨inv_astep hinv hs, by rw [h2]; exact hc.own, hc.low, Or.inl (by rw [h4]; exact hp), ?_⟩, h3⟩
         intro x hx
         rw [h1]
         by_cases e : x = t
@@ -123,10 +125,10 @@ theorem absStep_sound {s : St} {tid : Nat} {A A' : Abs} {a : Act} (hc : Conc s t
       | inl tag val =>
         have hs : ∃ s', astep s tid (.dec t) = some s' ∧ s'.slots = upd s.slots t .none ∧ s'.owner = s.owner ∧ s'.n = s.n ∧
             s'.pc = s.pc := by
-          simp only [astep, ht, hc.own, hp, and_self, if_true, hsl]
+          simp only [astep, ht, (hc.own t hm), hp, and_self, if_true, hsl]
           exact ⟨_, rfl, rfl, rfl, rfl, rfl⟩
         obtain ⟨s', hs, h1, h2, h3, h4⟩ := hs
-        refine ⟨_, hs, ⟨inv_astep hinv hs, by rw [h2]; exact hc.own, Or.inl (by rw [h4]; exact hp), ?_⟩, h3⟩
+        refine ⟨_, hs, ⟨inv_astep hinv hs, by rw [h2]; exact hc.own, hc.low, Or.inl (by rw [h4]; exact hp), ?_⟩, h3⟩
         intro x hx
         rw [h1]
         by_cases e : x = t
@@ -149,27 +151,27 @@ theorem absStep_sound {s : St} {tid : Nat} {A A' : Abs} {a : Act} (hc : Conc s t
         | mayWrite => exact absurd hA hnw
       rcases hcase with hp | ⟨b, hp⟩
       · have hs : astep s tid .free = some s := by simp only [astep, hp]
-        exact ⟨s, hs, ⟨hinv, hc.own, hp, hc.emp⟩, rfl⟩
+        exact ⟨s, hs, ⟨hinv, hc.own, hc.low, hp, hc.emp⟩, rfl⟩
       · obtain ⟨⟨blk, hblk, _⟩, _⟩ := hinv.freeing tid b hp
         have hs : ∃ s', astep s tid .free = some s' ∧ s'.slots = s.slots ∧ s'.owner = s.owner ∧ s'.n = s.n ∧ s'.pc tid = .idle := by
           simp only [astep, hp, hblk]
           exact ⟨_, rfl, rfl, rfl, rfl, upd_same _ _ _⟩
         obtain ⟨s', hs, h1, h2, h3, h4⟩ := hs
-        exact ⟨_, hs, ⟨inv_astep hinv hs, by rw [h2]; exact hc.own, by simp only [phOk, h4], by rw [h1]; exact hc.emp⟩, h3⟩
+        exact ⟨_, hs, ⟨inv_astep hinv hs, by rw [h2]; exact hc.own, hc.low, by simp only [phOk, h4], by rw [h1]; exact hc.emp⟩, h3⟩
   | alloc t tag val cap =>
     simp only [absStep] at ha
     split at ha
     case isFalse => cases ha
     case isTrue h =>
-      obtain ⟨hph, ht, hte⟩ := h
+      obtain ⟨hm, hph, ht, hte⟩ := h
       cases ha
       have hp : s.pc tid = .idle := by have := hc.ph; rw [hph] at this; exact this
       have hs : ∃ s', astep s tid (.alloc t tag val cap) = some s' ∧ s'.slots = upd s.slots t (.blk s.next) ∧ s'.owner = s.owner ∧
           s'.n = s.n ∧ s'.pc = s.pc := by
-        simp only [astep, ht, hc.own, hp, hc.emp t hte, and_self, if_true]
+        simp only [astep, ht, (hc.own t hm), hp, hc.emp t hte, and_self, if_true]
         exact ⟨_, rfl, rfl, rfl, rfl, rfl⟩
       obtain ⟨s', hs, h1, h2, h3, h4⟩ := hs
-      refine ⟨_, hs, ⟨inv_astep hinv hs, by rw [h2]; exact hc.own, by rw [h4, hph]; exact hp, ?_⟩, h3⟩
+      refine ⟨_, hs, ⟨inv_astep hinv hs, by rw [h2]; exact hc.own, hc.low, by rw [h4, hph]; exact hp, ?_⟩, h3⟩
       intro x hx
       obtain ⟨hx1, hx2⟩ := mem_drop hx
       rw [h1, upd_other _ _ _ _ hx2]; exact hc.emp x hx1
@@ -178,7 +180,7 @@ theorem absStep_sound {s : St} {tid : Nat} {A A' : Abs} {a : Act} (hc : Conc s t
     split at ha
     case isFalse => cases ha
     case isTrue h =>
-      obtain ⟨hph, ht⟩ := h
+      obtain ⟨hm, hph, ht⟩ := h
       cases ha
       have hp : s.pc tid = .idle := by have := hc.ph; rw [hph] at this; exact this
       cases hsl : s.slots t with
@@ -187,19 +189,19 @@ theorem absStep_sound {s : St} {tid : Nat} {A A' : Abs} {a : Act} (hc : Conc s t
         by_cases hcond : blk.ref = 1 ∧ ok = true
         · have hs : ∃ s', astep s tid (.readRef t ok) = some s' ∧ s'.slots = s.slots ∧ s'.owner = s.owner ∧ s'.n = s.n ∧
               s'.pc tid = .writing t b := by
-            simp only [astep, ht, hc.own, hp, and_self, if_true, hsl, hblk, hcond]
+            simp only [astep, ht, (hc.own t hm), hp, and_self, if_true, hsl, hblk, hcond]
             exact ⟨_, rfl, rfl, rfl, rfl, upd_same _ _ _⟩
           obtain ⟨s', hs, h1, h2, h3, h4⟩ := hs
-          exact ⟨_, hs, ⟨inv_astep hinv hs, by rw [h2]; exact hc.own, Or.inr ⟨t, b, h4⟩, by rw [h1]; exact hc.emp⟩, h3⟩
+          exact ⟨_, hs, ⟨inv_astep hinv hs, by rw [h2]; exact hc.own, hc.low, Or.inr ⟨t, b, h4⟩, by rw [h1]; exact hc.emp⟩, h3⟩
         · have hs : astep s tid (.readRef t ok) = some s := by
-            simp only [astep, ht, hc.own, hp, and_self, if_true, hsl, hblk, hcond, if_false]
-          exact ⟨_, hs, ⟨hinv, hc.own, Or.inl hp, hc.emp⟩, rfl⟩
+            simp only [astep, ht, (hc.own t hm), hp, and_self, if_true, hsl, hblk, hcond, if_false]
+          exact ⟨_, hs, ⟨hinv, hc.own, hc.low, Or.inl hp, hc.emp⟩, rfl⟩
       | none =>
-        have hs : astep s tid (.readRef t ok) = some s := by simp only [astep, ht, hc.own, hp, and_self, if_true, hsl]
-        exact ⟨_, hs, ⟨hinv, hc.own, Or.inl hp, hc.emp⟩, rfl⟩
+        have hs : astep s tid (.readRef t ok) = some s := by simp only [astep, ht, (hc.own t hm), hp, and_self, if_true, hsl]
+        exact ⟨_, hs, ⟨hinv, hc.own, hc.low, Or.inl hp, hc.emp⟩, rfl⟩
       | inl tag val =>
-        have hs : astep s tid (.readRef t ok) = some s := by simp only [astep, ht, hc.own, hp, and_self, if_true, hsl]
-        exact ⟨_, hs, ⟨hinv, hc.own, Or.inl hp, hc.emp⟩, rfl⟩
+        have hs : astep s tid (.readRef t ok) = some s := by simp only [astep, ht, (hc.own t hm), hp, and_self, if_true, hsl]
+        exact ⟨_, hs, ⟨hinv, hc.own, hc.low, Or.inl hp, hc.emp⟩, rfl⟩
   | write val =>
     simp only [absStep] at ha
     split at ha
@@ -214,24 +216,24 @@ theorem absStep_sound {s : St} {tid : Nat} {A A' : Abs} {a : Act} (hc : Conc s t
         | mayFree => exact absurd hA hnf
       rcases hcase with hp | ⟨t, b, hp⟩
       · have hs : astep s tid (.write val) = some s := by simp only [astep, hp]
-        exact ⟨s, hs, ⟨hinv, hc.own, hp, hc.emp⟩, rfl⟩
+        exact ⟨s, hs, ⟨hinv, hc.own, hc.low, hp, hc.emp⟩, rfl⟩
       · obtain ⟨_, _, _, blk, hblk, _⟩ := hinv.writing tid t b hp
         have hs : ∃ s', astep s tid (.write val) = some s' ∧ s'.slots = s.slots ∧ s'.owner = s.owner ∧ s'.n = s.n ∧ s'.pc tid = .idle := by
           simp only [astep, hp, hblk]
           exact ⟨_, rfl, rfl, rfl, rfl, upd_same _ _ _⟩
         obtain ⟨s', hs, h1, h2, h3, h4⟩ := hs
-        exact ⟨_, hs, ⟨inv_astep hinv hs, by rw [h2]; exact hc.own, by simp only [phOk, h4], by rw [h1]; exact hc.emp⟩, h3⟩
+        exact ⟨_, hs, ⟨inv_astep hinv hs, by rw [h2]; exact hc.own, hc.low, by simp only [phOk, h4], by rw [h1]; exact hc.emp⟩, h3⟩
   | move d t =>
     simp only [absStep] at ha
     split at ha
     case isFalse => cases ha
     case isTrue h =>
-      obtain ⟨hph, hd, ht, hne, hde⟩ := h
+      obtain ⟨hm, hph, hd, ht, hne, hde⟩ := h
       cases ha
       have hp : s.pc tid = .idle := by have := hc.ph; rw [hph] at this; exact this
       have hs : astep s tid (.move d t) = some (doMove s d t) := by
-        simp only [astep, hd, ht, hne, hc.own, hp, hc.emp d hde, and_self, if_true, ne_eq, not_false_eq_true]
-      refine ⟨_, hs, ⟨inv_astep hinv hs, hc.own, by rw [hph]; exact hp, ?_⟩, rfl⟩
+        simp only [astep, hd, ht, hne, (hc.own d hm.1), (hc.own t hm.2), hp, hc.emp d hde, and_self, if_true, ne_eq, not_false_eq_true]
+      refine ⟨_, hs, ⟨inv_astep hinv hs, hc.own, hc.low, by rw [hph]; exact hp, ?_⟩, rfl⟩
       intro x hx
       simp only [doMove]
       by_cases e : x = t
@@ -246,15 +248,15 @@ theorem absStep_sound {s : St} {tid : Nat} {A A' : Abs} {a : Act} (hc : Conc s t
     split at ha
     case isFalse => cases ha
     case isTrue h =>
-      obtain ⟨hph, haa, hbb⟩ := h
+      obtain ⟨hm, hph, haa, hbb⟩ := h
       cases ha
       have hp : s.pc tid = .idle := by have := hc.ph; rw [hph] at this; exact this
       have hs : ∃ s', astep s tid (.swap a b) = some s' ∧ s'.slots = upd (upd s.slots a (s.slots b)) b (s.slots a) ∧
           s'.owner = s.owner ∧ s'.n = s.n ∧ s'.pc = s.pc := by
-        simp only [astep, haa, hbb, hc.own, hp, and_self, if_true]
+        simp only [astep, haa, hbb, (hc.own a hm.1), (hc.own b hm.2), hp, and_self, if_true]
         exact ⟨_, rfl, rfl, rfl, rfl, rfl⟩
       obtain ⟨s', hs, h1, h2, h3, h4⟩ := hs
-      refine ⟨_, hs, ⟨inv_astep hinv hs, by rw [h2]; exact hc.own, by rw [h4, hph]; exact hp, ?_⟩, h3⟩
+      refine ⟨_, hs, ⟨inv_astep hinv hs, by rw [h2]; exact hc.own, hc.low, by rw [h4, hph]; exact hp, ?_⟩, h3⟩
       intro x hx
       simp only [List.mem_filter, bne_iff_ne, ne_eq] at hx
       obtain ⟨hx0, hxb⟩ := hx
@@ -265,15 +267,15 @@ theorem absStep_sound {s : St} {tid : Nat} {A A' : Abs} {a : Act} (hc : Conc s t
     split at ha
     case isFalse => cases ha
     case isTrue h =>
-      obtain ⟨hph, hd, hde⟩ := h
+      obtain ⟨hm, hph, hd, hde⟩ := h
       cases ha
       have hp : s.pc tid = .idle := by have := hc.ph; rw [hph] at this; exact this
       have hs : ∃ s', astep s tid (.setInl d tag val) = some s' ∧ s'.slots = upd s.slots d (.inl tag val) ∧
           s'.owner = s.owner ∧ s'.n = s.n ∧ s'.pc = s.pc := by
-        simp only [astep, hd, hc.own, hp, hc.emp d hde, and_self, if_true]
+        simp only [astep, hd, (hc.own d hm), hp, hc.emp d hde, and_self, if_true]
         exact ⟨_, rfl, rfl, rfl, rfl, rfl⟩
       obtain ⟨s', hs, h1, h2, h3, h4⟩ := hs
-      refine ⟨_, hs, ⟨inv_astep hinv hs, by rw [h2]; exact hc.own, by rw [h4, hph]; exact hp, ?_⟩, h3⟩
+      refine ⟨_, hs, ⟨inv_astep hinv hs, by rw [h2]; exact hc.own, hc.low, by rw [h4, hph]; exact hp, ?_⟩, h3⟩
       intro x hx
       rw [h1]
       by_cases e : x = d
@@ -285,11 +287,11 @@ theorem absStep_sound {s : St} {tid : Nat} {A A' : Abs} {a : Act} (hc : Conc s t
     split at ha
     case isFalse => cases ha
     case isTrue h =>
-      obtain ⟨hph, ht, hte⟩ := h
+      obtain ⟨hm, hph, ht, hte⟩ := h
       cases ha
       have hp : s.pc tid = .idle := by have := hc.ph; rw [hph] at this; exact this
       have hs : astep s tid (.clr t) = some s := by
-        simp only [astep, ht, hc.own, hp, hc.emp t hte, and_self, if_true]
+        simp only [astep, ht, (hc.own t hm), hp, hc.emp t hte, and_self, if_true]
       exact ⟨s, hs, hc, rfl⟩
   | incE t c v => simp [absStep] at ha
   | takeE t c v => simp [absStep] at ha
@@ -315,7 +317,22 @@ end Nstd.Rc
 
 namespace Nstd.Rc
 
-def A0 (tid : Nat) : Abs := ⟨.idle, [tmpU tid, tmpT tid]⟩
+/-- all top-level slots: the single-threaded case -/
+def mineAll : Nat → Bool := fun x => decide (x < embBase)
+
+def A0 (tid : Nat) (mine : Nat → Bool) : Abs := ⟨.idle, [tmpU tid, tmpT tid], mine⟩
+
+theorem absStep_mine {n : Nat} {A A' : Abs} {a : Act} (h : absStep n A a = some A') : A'.mine = A.mine := by
+  cases a <;> simp only [absStep] at h <;> (try split at h) <;> first | (cases h; done) | (cases h; rfl)
+
+theorem absRun_mine {n : Nat} (acts : List Act) {A A' : Abs} (h : absRun n A acts = some A') : A'.mine = A.mine := by
+  induction acts generalizing A with
+  | nil => simp only [absRun, Option.some.injEq] at h; subst h; rfl
+  | cons a r ih =>
+    simp only [absRun] at h
+    cases h1 : absStep n A a with
+    | none => simp only [h1] at h; cases h
+    | some A1 => simp only [h1] at h; rw [ih h, absStep_mine h1]
 
 /-- final abstract state of a call: idle, scratch slots empty again -/
 def Abs.good (tid : Nat) (A : Abs) : Prop := A.ph = .idle ∧ tmpU tid ∈ A.empty ∧ tmpT tid ∈ A.empty
@@ -334,6 +351,15 @@ def idxOk : ApiOp → Prop
   | .pClear d | .pNext d => d < nVars
   | .sCopy d s | .sAssign d s | .vCopy d s | .vAssign d s | .vSwap d s | .xCopy d s | .xAssign d s | .pCopy d s
   | .pAssign d s | .pSwap d s | .pLink d s | .pNextOf d s => d < nVars ∧ s < nVars
+
+/-- every handle the call names belongs to the thread -/
+def idxMine (mine : Nat → Bool) : ApiOp → Prop
+  | .sNew d _ | .sLit d _ | .sClear d | .sAppend d _ | .sReserve d _ | .sDel d | .sSet d _ | .sPrepend d _ | .sResize d _
+  | .sEdit d _ _ _ | .sPrintf d _ | .vClear d | .vSetInt d _ | .vSetStr d _ | .vAppStr d _ | .vPush d _ | .vSetList d _
+  | .vPushA d _ | .vSetArr d _ | .vPutM d _ _ | .vSetMap d _ _ | .xClear d | .xSetStr d _ | .xElem d _ | .pNew d _
+  | .pClear d | .pNext d => mine d = true
+  | .sCopy d s | .sAssign d s | .vCopy d s | .vAssign d s | .vSwap d s | .xCopy d s | .xAssign d s | .pCopy d s
+  | .pAssign d s | .pSwap d s | .pLink d s | .pNextOf d s => mine d = true ∧ mine s = true
 
 macro "absauto" : tactic =>
   `(tactic| (simp [absRun, absStep, A0, Abs.drop, Abs.good, tmpU, tmpT, nVars, rel, shareAssign, cloneAllocFirst,
@@ -361,10 +387,13 @@ macro "absauto2" : tactic =>
       cloneAllocFirst, cloneReleaseFirst, *]
     <;> (try omega) <;> absfin))
 
-theorem flat_lists_ok (n tid : Nat) (op : ApiOp) (hn : nSlots ≤ n) (htid : tid < nThreads) (hf : flatOp op = true)
-    (hi : idxOk op) (st : St) : okMid n tid op (absRun n (A0 tid) (pre st tid op)) := by
+theorem flat_lists_ok (n tid : Nat) (op : ApiOp) (mine : Nat → Bool) (hn : nSlots ≤ n) (htid : tid < nThreads)
+    (hf : flatOp op = true) (hi : idxOk op) (hmi : idxMine mine op) (hmU : mine (tmpU tid) = true)
+    (hmT : mine (tmpT tid) = true) (st : St) : okMid n tid op (absRun n (A0 tid mine) (pre st tid op)) := by
   simp only [nSlots, nVars, nThreads] at hn htid
-  cases op <;> simp only [flatOp, Bool.false_eq_true] at hf <;> simp only [idxOk, nVars] at hi
+  simp only [tmpU, tmpT, nVars] at hmU hmT
+  cases op <;> simp only [flatOp, Bool.false_eq_true] at hf <;> simp only [idxOk, nVars] at hi <;>
+    simp only [idxMine] at hmi
   case sNew d bytes =>
     have h1 : d < n := by omega
     have e1 : ¬ 16 + 2 * tid = d := by omega
@@ -618,6 +647,7 @@ theorem flat_lists_ok (n tid : Nat) (op : ApiOp) (hn : nSlots ≤ n) (htid : tid
     have h3 : 16 + 2 * tid + 1 < n := by omega
     have h4 : 16 + 2 * tid < n := by omega
     have h2 : s < n := by omega
+    obtain ⟨hmd, hms⟩ := hmi
     have f1 : ¬ 16 + 2 * tid = s := by omega
     have f2 : ¬ 16 + 2 * tid + 1 = s := by omega
     have f3 : ¬ s = 16 + 2 * tid := by omega
@@ -633,6 +663,7 @@ theorem flat_lists_ok (n tid : Nat) (op : ApiOp) (hn : nSlots ≤ n) (htid : tid
     have h3 : 16 + 2 * tid + 1 < n := by omega
     have h4 : 16 + 2 * tid < n := by omega
     have h2 : s < n := by omega
+    obtain ⟨hmd, hms⟩ := hmi
     have f1 : ¬ 16 + 2 * tid = s := by omega
     have f2 : ¬ 16 + 2 * tid + 1 = s := by omega
     have f3 : ¬ s = 16 + 2 * tid := by omega
@@ -648,6 +679,7 @@ theorem flat_lists_ok (n tid : Nat) (op : ApiOp) (hn : nSlots ≤ n) (htid : tid
     have h3 : 16 + 2 * tid + 1 < n := by omega
     have h4 : 16 + 2 * tid < n := by omega
     have h2 : s < n := by omega
+    obtain ⟨hmd, hms⟩ := hmi
     have f1 : ¬ 16 + 2 * tid = s := by omega
     have f2 : ¬ 16 + 2 * tid + 1 = s := by omega
     have f3 : ¬ s = 16 + 2 * tid := by omega
@@ -663,6 +695,7 @@ theorem flat_lists_ok (n tid : Nat) (op : ApiOp) (hn : nSlots ≤ n) (htid : tid
     have h3 : 16 + 2 * tid + 1 < n := by omega
     have h4 : 16 + 2 * tid < n := by omega
     have h2 : s < n := by omega
+    obtain ⟨hmd, hms⟩ := hmi
     have f1 : ¬ 16 + 2 * tid = s := by omega
     have f2 : ¬ 16 + 2 * tid + 1 = s := by omega
     have f3 : ¬ s = 16 + 2 * tid := by omega
@@ -678,12 +711,13 @@ theorem flat_lists_ok (n tid : Nat) (op : ApiOp) (hn : nSlots ≤ n) (htid : tid
     have h3 : 16 + 2 * tid + 1 < n := by omega
     have h4 : 16 + 2 * tid < n := by omega
     have h2 : s < n := by omega
+    obtain ⟨hmd, hms⟩ := hmi
     have f1 : ¬ 16 + 2 * tid = s := by omega
     have f2 : ¬ 16 + 2 * tid + 1 = s := by omega
     have f3 : ¬ s = 16 + 2 * tid := by omega
     have f4 : ¬ s = 16 + 2 * tid + 1 := by omega
     have post_ok : ∀ (E : List Nat) (s1 : St), 16 + 2 * tid + 1 ∈ E →
-        okFinal tid (absRun n { ph := .idle, empty := E } (post s1 tid (.vSwap d s))) := by
+        okFinal tid (absRun n { ph := .idle, empty := E, mine := mine } (post s1 tid (.vSwap d s))) := by
       intro E s1 hE
       by_cases hsd : s = d <;> cases hd' : s1.slots d <;> cases hu' : s1.slots (16 + 2 * tid) <;>
         simp [hsd, hd', hu', hE, okFinal, post, absRun, absStep, Abs.drop, Abs.good, tmpU, tmpT, nVars, rel, shareAssign, boxAssign, cloneAllocFirst, cloneReleaseFirst, *] <;> (try omega)
@@ -699,6 +733,7 @@ theorem flat_lists_ok (n tid : Nat) (op : ApiOp) (hn : nSlots ≤ n) (htid : tid
     have h3 : 16 + 2 * tid + 1 < n := by omega
     have h4 : 16 + 2 * tid < n := by omega
     have h2 : s < n := by omega
+    obtain ⟨hmd, hms⟩ := hmi
     have f1 : ¬ 16 + 2 * tid = s := by omega
     have f2 : ¬ 16 + 2 * tid + 1 = s := by omega
     have f3 : ¬ s = 16 + 2 * tid := by omega
@@ -714,6 +749,7 @@ theorem flat_lists_ok (n tid : Nat) (op : ApiOp) (hn : nSlots ≤ n) (htid : tid
     have h3 : 16 + 2 * tid + 1 < n := by omega
     have h4 : 16 + 2 * tid < n := by omega
     have h2 : s < n := by omega
+    obtain ⟨hmd, hms⟩ := hmi
     have f1 : ¬ 16 + 2 * tid = s := by omega
     have f2 : ¬ 16 + 2 * tid + 1 = s := by omega
     have f3 : ¬ s = 16 + 2 * tid := by omega
@@ -729,6 +765,7 @@ theorem flat_lists_ok (n tid : Nat) (op : ApiOp) (hn : nSlots ≤ n) (htid : tid
     have h3 : 16 + 2 * tid + 1 < n := by omega
     have h4 : 16 + 2 * tid < n := by omega
     have h2 : s < n := by omega
+    obtain ⟨hmd, hms⟩ := hmi
     have f1 : ¬ 16 + 2 * tid = s := by omega
     have f2 : ¬ 16 + 2 * tid + 1 = s := by omega
     have f3 : ¬ s = 16 + 2 * tid := by omega
@@ -736,9 +773,11 @@ theorem flat_lists_ok (n tid : Nat) (op : ApiOp) (hn : nSlots ≤ n) (htid : tid
     simp only [pre, boxAssign]
     (repeat' split) <;> absauto2
 
-theorem conc_weaken {s : St} {tid : Nat} {A : Abs} (hc : Conc s tid A) (hg : A.good tid) : Conc s tid (A0 tid) := by
+theorem conc_weaken {s : St} {tid : Nat} {A : Abs} {mine : Nat → Bool} (hc : Conc s tid A) (hg : A.good tid)
+    (hm : A.mine = mine) : Conc s tid (A0 tid mine) := by
+  subst hm
   obtain ⟨h1, h2, h3⟩ := hg
-  refine ⟨hc.inv, hc.own, ?_, ?_⟩
+  refine ⟨hc.inv, hc.own, hc.low, ?_, ?_⟩
   · have := hc.ph; rw [h1] at this; exact this
   · intro x hx
     simp only [A0, List.mem_cons, List.not_mem_nil, or_false] at hx
@@ -748,26 +787,28 @@ theorem conc_weaken {s : St} {tid : Nat} {A : Abs} (hc : Conc s tid A) (hg : A.g
 
 /-- a String / Variant / Xml::Variant call (and Ptr::swap) on variables of a thread that owns all slots, is
     idle and has empty scratch slots is never rejected, and it re-establishes exactly that situation -/
-theorem apiStep_total {s : St} {tid : Nat} {op : ApiOp} (hc : Conc s tid (A0 tid)) (hn : nSlots ≤ s.n)
-    (htid : tid < nThreads) (hf : flatOp op = true) (hi : idxOk op) :
-    ∃ s', apiStep s tid op = some s' ∧ Conc s' tid (A0 tid) ∧ s'.n = s.n := by
-  have ok := flat_lists_ok s.n tid op hn htid hf hi s
-  cases hA : absRun s.n (A0 tid) (pre s tid op) with
+theorem apiStep_total {s : St} {tid : Nat} {op : ApiOp} {mine : Nat → Bool} (hc : Conc s tid (A0 tid mine))
+    (hn : nSlots ≤ s.n) (htid : tid < nThreads) (hf : flatOp op = true) (hi : idxOk op) (hmi : idxMine mine op)
+    (hmU : mine (tmpU tid) = true) (hmT : mine (tmpT tid) = true) :
+    ∃ s', apiStep s tid op = some s' ∧ Conc s' tid (A0 tid mine) ∧ s'.n = s.n := by
+  have ok := flat_lists_ok s.n tid op mine hn htid hf hi hmi hmU hmT s
+  cases hA : absRun s.n (A0 tid mine) (pre s tid op) with
   | none => rw [hA] at ok; exact absurd ok (by simp [okMid])
   | some A1 =>
     rw [hA] at ok
     obtain ⟨hne, hpost⟩ := ok
     obtain ⟨s1, hr1, hc1, hn1⟩ := absRun_sound _ hc hA
-    have fin : ∀ (A1' : Abs), Conc s1 tid A1' → okFinal tid (absRun s.n A1' (post s1 tid op)) →
-        ∃ s', apiStep s tid op = some s' ∧ Conc s' tid (A0 tid) ∧ s'.n = s.n := by
-      intro A1' hc1' hfin
+    have hm1 : A1.mine = mine := absRun_mine _ hA
+    have fin : ∀ (A1' : Abs), A1'.mine = mine → Conc s1 tid A1' → okFinal tid (absRun s.n A1' (post s1 tid op)) →
+        ∃ s', apiStep s tid op = some s' ∧ Conc s' tid (A0 tid mine) ∧ s'.n = s.n := by
+      intro A1' hm1' hc1' hfin
       cases hB : absRun s.n A1' (post s1 tid op) with
       | none => rw [hB] at hfin; exact absurd hfin (by simp [okFinal])
       | some A2 =>
         rw [hB] at hfin
         rw [← hn1] at hB
         obtain ⟨s2, hr2, hc2, hn2⟩ := absRun_sound _ hc1' hB
-        exact ⟨s2, by simp only [apiStep, hr1]; exact hr2, conc_weaken hc2 hfin, by rw [hn2, hn1]⟩
+        exact ⟨s2, by simp only [apiStep, hr1]; exact hr2, conc_weaken hc2 hfin (by rw [absRun_mine _ hB, hm1']), by rw [hn2, hn1]⟩
     by_cases hw : isWriting s1 tid = true
     · have hpc : ∃ t b, s1.pc tid = .writing t b := by
         simp only [isWriting] at hw
@@ -782,7 +823,7 @@ theorem apiStep_total {s : St} {tid : Nat} {op : ApiOp} (hc : Conc s tid (A0 tid
         | idle => rw [hA1] at this; simp only [phOk] at this; rw [hpc] at this; cases this
         | mayFree => exact absurd hA1 hne
         | mayWrite => rfl
-      refine fin { A1 with ph := .mayWrite } ⟨hc1.inv, hc1.own, Or.inr ⟨t, b, hpc⟩, hc1.emp⟩ ((hpost s1).1 hph hw)
+      refine fin { A1 with ph := .mayWrite } hm1 ⟨hc1.inv, hc1.own, hc1.low, Or.inr ⟨t, b, hpc⟩, hc1.emp⟩ ((hpost s1).1 hph hw)
     · have hw' : isWriting s1 tid = false := by simpa using hw
       have hidle : s1.pc tid = .idle := by
         have := hc1.ph
@@ -794,20 +835,22 @@ theorem apiStep_total {s : St} {tid : Nat} {op : ApiOp} (hc : Conc s tid (A0 tid
           rcases this with h | ⟨t, b, h⟩
           · exact h
           · simp [isWriting, h] at hw'
-      refine fin { A1 with ph := .idle } ⟨hc1.inv, hc1.own, hidle, hc1.emp⟩ ((hpost s1).2 hw')
+      refine fin { A1 with ph := .idle } hm1 ⟨hc1.inv, hc1.own, hc1.low, hidle, hc1.emp⟩ ((hpost s1).2 hw')
 
-theorem conc_init (n : Nat) : Conc (init n) 0 (A0 0) := by
-  refine ⟨inv_init n, fun _ => rfl, rfl, ?_⟩
-  intro x _; rfl
+theorem conc_init (n : Nat) : Conc (init n) 0 (A0 0 mineAll) := by
+  refine ⟨inv_init n, fun _ _ => rfl, ?_, rfl, ?_⟩
+  · intro x hx; simpa [A0, mineAll] using hx
+  · intro x _; rfl
 
-theorem apiRun_total_aux {tid : Nat} (ops : List ApiOp) {s : St} (hc : Conc s tid (A0 tid)) (hn : nSlots ≤ s.n)
-    (htid : tid < nThreads) (hops : ∀ op, op ∈ ops → flatOp op = true ∧ idxOk op) :
-    ∃ s', apiRun s tid ops = some s' ∧ Conc s' tid (A0 tid) := by
+theorem apiRun_total_aux {tid : Nat} {mine : Nat → Bool} (ops : List ApiOp) {s : St} (hc : Conc s tid (A0 tid mine))
+    (hn : nSlots ≤ s.n) (htid : tid < nThreads) (hmU : mine (tmpU tid) = true) (hmT : mine (tmpT tid) = true)
+    (hops : ∀ op, op ∈ ops → flatOp op = true ∧ idxOk op ∧ idxMine mine op) :
+    ∃ s', apiRun s tid ops = some s' ∧ Conc s' tid (A0 tid mine) := by
   induction ops generalizing s with
   | nil => exact ⟨s, rfl, hc⟩
   | cons op r ih =>
-    obtain ⟨hf, hi⟩ := hops op (List.mem_cons_self ..)
-    obtain ⟨s1, h1, hc1, hn1⟩ := apiStep_total hc hn htid hf hi
+    obtain ⟨hf, hi, hmi⟩ := hops op (List.mem_cons_self ..)
+    obtain ⟨s1, h1, hc1, hn1⟩ := apiStep_total hc hn htid hf hi hmi hmU hmT
     obtain ⟨s', h', hc'⟩ := ih hc1 (by rw [hn1]; exact hn) (fun o ho => hops o (List.mem_cons_of_mem _ ho))
     exact ⟨s', by simp only [apiRun, h1]; exact h', hc'⟩
 
